@@ -291,6 +291,13 @@ def run(ctx):
              'grammar': [['A2K4A1', '0.5'], ['K4', '0.5']], 'omen_prob': [], 'prince': [], 'mode': 'dyadic', 'encoding': 'utf-8'}
     viol += guess_level_case(kspec, {'min_length': 0, 'max_length': 7, 'terminal_set': False, 'regex': None}, rules_dir)
     greal += 1
+    # whatever the seed: a stored word that keeps an upper-case letter (U+0130: lower-casing it would change the length, so the trainer
+    # leaves it) under masks that touch the first letter only - every guess of A5D3 has exactly 8 characters
+    ispec = {'terminals': {'A5': [['den\u0130z', '0.5'], ['hello', '0.5']], 'C5': [['LLLLL', '0.5'], ['ULLLL', '0.25'], ['UUUUU', '0.25']],
+                           'D3': [['123', '1.0']], 'D2': [['12', '1.0']]},
+             'grammar': [['A5D3', '0.5'], ['A5D2', '0.25'], ['A5', '0.25']], 'omen_prob': [], 'prince': [], 'mode': 'dyadic', 'encoding': 'utf-8'}
+    viol += guess_level_case(ispec, {'min_length': 8, 'max_length': 8, 'terminal_set': False, 'regex': None}, rules_dir)
+    greal += 1
     cases += greal
     # CLI level: the same through edit_rules.py in the snapshot
     cli_runs = 0
